@@ -37,6 +37,13 @@ package main
 //@   modifies *
 // The pattern handed to the path parser is the -files value as read from the flag, unmodified.
 //@   atcall ParsePath pattern: arg0 == init(search_files_glob)
+// Under -json / -formatted-json the document is the only thing printed once the results exist, and it is
+// printed verbatim (Println of the one string, never as a format).
+//@   ensures stdoutjson: defined(results) && !no_output && len(results) != 0 && out_json ==> exists p Str :: { p ++ jsonOf(box(engine.Matches, results)) } stdout == p ++ jsonOf(box(engine.Matches, results)) ++ "\n"
+//@   ensures stdoutfjson: defined(results) && !no_output && len(results) != 0 && !out_json && out_fjson ==> exists p Str :: { p ++ jsonIndentOf(box(engine.Matches, results), "", "\t") } stdout == p ++ jsonIndentOf(box(engine.Matches, results), "", "\t") ++ "\n"
+//@   atcall Printf quiet: defined(results) && len(results) != 0 ==> !out_json && !out_fjson
+//@   atcall Print quiet: defined(results) && len(results) != 0 ==> !out_json && !out_fjson
+//@   atcall Println doc: defined(results) && len(results) != 0 && (out_json || out_fjson) ==> len(arg0) == 1 && arg0[0] == box(string, out_json ? jsonOf(box(engine.Matches, results)) : jsonIndentOf(box(engine.Matches, results), "", "\t"))
 //@   atcall GetFileList compiled: defined(compError) && compError == nil
 //@   atcall RunFiles valid: (len(search_files_glob) != 0 || debug) && ((len(source) != 0) != (len(command) != 0)) && !(out_json && out_fjson)
 //@   atcall RunFiles args: arg2 == replaceModeArg && arg3 == process_filenames
